@@ -5,10 +5,10 @@ META = {
     "level": "model_checking",
     "text": "TLC exhaustively checks a specification of processPubsubMessage / processContainerMessage (container decoding, type "
             "lookup, payload decoding, identity decoding, outer = inner comparison, operator key type, deliver) over all envelopes "
-            "[author in {four secp256k1 operators - two of them with a leading zero byte in X resp. Y of their key -, one Ed25519 peer}, inner identity in the same peers or garbage / bad key / empty, "
+            "[author in {four secp256k1 operators - two of them with a leading zero byte in X resp. Y of their key -, one Ed25519 peer}, inner identity in the same peers, the mirror key (x, -y) of any operator, or garbage / bad key / empty, "
             "type registered or not, payload decodable or not, container decodable or not] and all batches of two: whatever is "
             "delivered names the authenticated author with that author's operator key, everything else is dropped, and a dropped "
-            "envelope does not affect the others. Every envelope (640) and random batches are replayed with real keys, identities "
+            "envelope does not affect the others. Every envelope (960) and random batches are replayed with real keys, identities "
             "and protobuf bytes on the real channel, observing exactly what deliver() put into two handlers' queues.",
     "note": "Trusted: libp2p authenticated the author (GetFrom) before the channel sees the message; the pubsub validator and "
             "signature check are libp2p's. Malformed inputs are three representatives per field (truncated protobuf, protobuf with "
@@ -24,8 +24,8 @@ def run(ctx):
     ctx.require_coverage(r, ["Process"], "MC_Envelope")
     g = ctx.tlc(SPEC, "Gen_Envelope", cfg="Gen_Single", workers=1, label="Gen_Single", dump_trace=False)
     singles = ctx.read_emitted(g, "cases.ndjson")
-    if len(singles) != 640:
-        ctx.broken("expected 640 single envelopes, got %d" % len(singles))
+    if len(singles) != 960:
+        ctx.broken("expected 960 single envelopes, got %d" % len(singles))
     kinds = set(c["verdicts"][0] for c in singles)
     if kinds != {"container", "type", "payload", "identity", "mismatch", "keytype", "delivered"}:
         ctx.broken("the generated envelopes do not reach every branch: %s" % sorted(kinds))
@@ -49,7 +49,7 @@ def run(ctx):
             ctx.broken("the replay never exercised verdict %s" % k)
     return ctx.finish(
         level="model_checking",
-        rule="TLC: all 640 envelopes and all 409600 batches of two. Replay: every envelope alone and %d random batches of 2-6 on the real "
+        rule="TLC: all 960 envelopes and all 921600 batches of two. Replay: every envelope alone and %d random batches of 2-6 on the real "
              "channel; non-trivial = batches containing an envelope dropped after the container decoded." % len(batches),
         assumptions=["the author (pubsub From) was authenticated by libp2p before the channel is called",
                      "three representative malformations of the identity and one of container / payload"],
